@@ -491,6 +491,9 @@ def run_ctorlist(ctx, p):
             o, v = single(c, pool[k])
             items.append(o)
             model.append(v)
+        elif ch == 'R':       # the very same object once more (a list may hold one object several times)
+            items.append(items[-1])
+            model.append(model[-1])
         elif ch == 'F':
             items.append(single(d, opool[k])[0])
         elif ch == 'M':
@@ -513,7 +516,7 @@ def run_ctorlist(ctx, p):
             ctx.judge('state', ok, dict(sig, kind='conversion_list_wrong'), lambda: '%s holds %s' % (what(), core.short(x.data, 300)))
         else:
             ctx.ok('errors')
-    elif set(pat) == {'O'}:
+    elif set(pat) <= {'O', 'R'}:
         if err is not None:
             ctx.bad('state', dict(sig, kind='construct_raised', exc=type(err).__name__), '%s raised %r' % (what(), err))
         else:
@@ -523,6 +526,13 @@ def run_ctorlist(ctx, p):
             ok = isinstance(d_, list) and len(d_) == len(model) and all(isinstance(v, np.ndarray) and eq_arr(c, v, m, readout=True) for v, m in zip(d_, model))
             ctx.judge('state', ok, dict(sig, kind='state_differs_from_model'),
                       lambda: '%s: object holds %s, the list model holds %s' % (what(), core.short(d_, 400), core.short(model, 400)))
+            if ok and 'R' in pat:
+                # the slots are separate although they were filled from one object: assigning to one leaves the others
+                o_, v_ = single(c, pool[len(pat) + 1])
+                x[0] = o_
+                model[0] = v_
+                ok2 = len(x.data) == len(model) and all(eq_arr(c, v, m, readout=True) for v, m in zip(x.data, model))
+                ctx.judge('state', ok2, dict(sig, kind='repeated_item_slots_linked'), lambda: '%s then x[0] = other: object holds %s, a list holds %s' % (what(), core.short(x.data, 400), core.short(model, 400)))
     else:
         d_ = getattr(x, 'data', None)
         ctx.judge('errors', err is not None, dict(sig, kind='bad_list_accepted'),
@@ -554,7 +564,65 @@ def run_ctorempty(ctx, p):
     ctx.nontrivial('ctorempty', c, p['form'])
 
 
-RUNNERS = {'ctorempty': run_ctorempty, 'history': run_history, 'slices': run_slices, 'ctor': run_ctor, 'ctorlist': run_ctorlist}
+def run_copies(ctx, p):
+    """a copy (copy constructor, .copy(), copy.copy, copy.deepcopy, pickle round trip) holds the values of the original and is a
+    list of its own: list operations on either leave the other as it was"""
+    import copy as cp
+    import pickle
+    c, n, how = p['cls'], p['n'], p['how']
+    pool = [np.asarray(a, dtype=np.float64) for a in p['pool']]
+    C = getattr(S(), c)
+    sig = dict(api=c, op='copy:' + how)
+    try:
+        x = from_list(c, pool[:n])
+        model = [np.array(v, copy=True) for v in x.data]
+        y = {'ctor': lambda: C(x), 'method': lambda: x.copy(), 'copy.copy': lambda: cp.copy(x), 'deepcopy': lambda: cp.deepcopy(x),
+             'pickle': lambda: pickle.loads(pickle.dumps(x))}[how]()
+    except Exception as e:
+        if n == 0 and how == 'ctor':
+            ctx.ood('state')        # C(Empty()): refusing an empty argument is the constructor's documented choice
+            return
+        ctx.bad('state', dict(sig, kind='copy_raised', exc=type(e).__name__), '%s of %s holding %d value(s) raised %r' % (how, c, n, e))
+        return
+    what = lambda: '%s copy of %s holding %d value(s)' % (how, c, n)
+    ok = type(y) is C and isinstance(getattr(y, 'data', None), list) and len(y.data) == n and all(isinstance(v, np.ndarray) and eq_arr(c, v, m, readout=True) for v, m in zip(y.data, model))
+    ctx.judge('state', ok, dict(sig, kind='copy_differs'), lambda: '%s holds %s %s, the original holds %s' % (what(), type(y).__name__, core.short(getattr(y, 'data', y), 300), core.short(model, 300)))
+    if not ok:
+        return
+    ymodel = [np.array(v, copy=True) for v in y.data]
+    try:
+        # list operations on the copy ...
+        o1, v1 = single(c, pool[(n + 1) % len(pool)])
+        y.append(o1)
+        ymodel.append(v1)
+        y.reverse()
+        ymodel.reverse()
+        if len(ymodel) > 1:
+            y.pop(0)
+            ymodel.pop(0)
+            o2, v2 = single(c, pool[(n + 2) % len(pool)])
+            y[0] = o2
+            ymodel[0] = v2
+        state_ok(ctx, c, x, model, dict(sig, op='copy:' + how, after='operations on the copy'), lambda: what() + ': the ORIGINAL after append / reverse / pop / setitem on the copy')
+        state_ok(ctx, c, y, ymodel, dict(sig, op='copy:' + how, after='operations on the copy (copy itself)'), lambda: what() + ': the copy after its own operations')
+        # ... and on the original
+        o3, v3 = single(c, pool[(n + 3) % len(pool)])
+        x.insert(0, o3)
+        model.insert(0, v3)
+        if len(model) > 1:
+            del x[-1]
+            del model[-1]
+        state_ok(ctx, c, y, ymodel, dict(sig, op='copy:' + how, after='operations on the original'), lambda: what() + ': the COPY after insert / del on the original')
+        state_ok(ctx, c, x, model, dict(sig, op='copy:' + how, after='operations on the original (original itself)'), lambda: what() + ': the original after its own operations')
+    except Exception as e:
+        ctx.bad('state', dict(sig, kind='raised_after_copy', exc=type(e).__name__), '%s: list operations raised %r' % (what(), e))
+        return
+    ctx.cell('copies', c, how, n)
+    if n > 0:
+        ctx.nontrivial('copies', c, how, n)
+
+
+RUNNERS = {'copies': run_copies, 'ctorempty': run_ctorempty, 'history': run_history, 'slices': run_slices, 'ctor': run_ctor, 'ctorlist': run_ctorlist}
 
 
 def REACH():
@@ -576,6 +644,9 @@ def run(ctx):
             i += 1
             if ctx.mine(i):
                 drive(RUNNERS, ctx, 'slices', dict(cls=c, n=n, pool=pools[c]))
+                if n <= 4:
+                    for how in ('ctor', 'method', 'copy.copy', 'deepcopy', 'pickle'):
+                        drive(RUNNERS, ctx, 'copies', dict(cls=c, n=n, how=how, pool=pools[c]))
                 drive(RUNNERS, ctx, 'ctor', dict(cls=c, n=n))
     # (a') constructor from every list pattern of length <= 3 over own / foreign / multi-valued / empty objects
     allc = CLASSES + EXTRA
@@ -596,7 +667,7 @@ def run(ctx):
             i += 1
             if ctx.mine(i):
                 drive(RUNNERS, ctx, 'ctorempty', dict(cls=c, form=form))
-        for pat in [''.join(t) for L in (1, 2, 3) for t in itertools.product('OME', repeat=L)]:
+        for pat in [''.join(t) for L in (1, 2, 3) for t in itertools.product('OME', repeat=L)] + ['OR', 'ORR', 'ORO', 'OOR']:
             i += 1
             if ctx.mine(i):
                 drive(RUNNERS, ctx, 'ctorlist', dict(cls=c, other=OTHER[c], pat=pat, pool=pools[c], opool=pools[OTHER[c]]))
